@@ -414,6 +414,9 @@ pub fn run(ctx: &Ctx) -> ! {
             ("property", format!("{{ {} {{ a: {} @tag(name: \"t\") {} ", v.root, v.prop, v.prop), " } }".into()),
             ("edge", format!("{{ {} {{ {} @tag(name: \"t\") @output {} ", v.root, v.prop, v.edge), format!(" {{ {} }} }} }}", v.prop)),
             ("edge-with-output-inside", format!("{{ {} {{ {} @tag(name: \"t\") {} ", v.root, v.prop, v.edge), format!(" {{ {} @output }} }} }}", v.prop)),
+            // the same decorated edge one level down (the enclosing edge has its own scope to open and close)
+            ("edge-under-edge", format!("{{ {} {{ {} @tag(name: \"t\") {} {{ {} ", v.root, v.prop, v.edge, v.edge), format!(" {{ {} @output }} }} }} }}", v.prop)),
+            ("edge-under-fold", format!("{{ {} {{ {} @tag(name: \"t\") @output {} @fold {{ {} ", v.root, v.prop, v.edge, v.edge), format!(" {{ {} @output }} }} }} }}", v.prop)),
         ];
         for len in 0..=dmax {
             if ctx.elapsed() > budget {
